@@ -217,6 +217,21 @@ fn build_cases(tier: Tier) -> Vec<(String, Vec<Case>)> {
             g.push(case(&argv, &input, "absurd-text-shape", format!("{} on text header #SHAPE=<{sh}>", argv.join(" "))));
         }
     }
+    // a zero-length axis next to absurd ones (the value count, 0, matches the product; everything derived from the shape must still not overflow)
+    for sh in ["0/8589934592/8589934592", "8589934592/0/8589934592", "8589934592/8589934592/0", "0/18446744073709551615", "18446744073709551615/0/3", "0/0/4294967296/4294967296/4294967296"] {
+        let input = Arc::new(format!("#SHAPE=<{sh}>\n\n").into_bytes());
+        for argv in [vec!["view"], vec!["fold"], vec!["stat", "-s", "sum"], vec!["view", "-O", "npy"], vec!["view", "-m", "0"]] {
+            g.push(case(&argv, &input, "zero-axis-next-to-absurd-axes", format!("{} on text header #SHAPE=<{sh}> without values", argv.join(" "))));
+        }
+    }
+    // thousands of axes: the npy 1.0 header length field holds at most 65 535 bytes (about 21 800 unit axes)
+    for d in [1000usize, 21_000, 21_800, 21_840, 21_900, 22_000, 30_000] {
+        let sh = vec!["1"; d].join("/");
+        let input = Arc::new(format!("#SHAPE=<{sh}>\n7\n").into_bytes());
+        for argv in [vec!["view"], vec!["view", "-O", "npy"], vec!["fold"], vec!["stat", "-s", "sum"]] {
+            g.push(case(&argv, &input, "thousands-of-axes", format!("{} on a spectrum with {d} axes of length 1", argv.join(" "))));
+        }
+    }
     let np = Spelling::numpy();
     for shape in [vec![4294967296usize], vec![4294967296, 4294967296], vec![usize::MAX], vec![1usize << 61], vec![1_000_000_000_000_000], vec![0], vec![2, 0], vec![1usize << 32, 1 << 31]] {
         for version in [1u8, 2] {
